@@ -70,7 +70,8 @@ def build_spectro(root, sp):
         if nbad:
             ivar[:, 5:5+nbad] = 0
         h = fits.PrimaryHDU(flux)
-        h.header['COEFF0'] = sp['c0'] + pl.get('dc0', 0.0)
+        if not pl.get('no_coeff'):
+            h.header['COEFF0'] = sp['c0'] + pl.get('dc0', 0.0)
         h.header['COEFF1'] = sp['c1']
         mdt = {'u8': 'u8', 'i4': 'i4', 'i8': 'i8'}[pl.get('masks', 'u8')]
         am = np.zeros((nfib, npix), dtype=mdt)
